@@ -48,6 +48,10 @@ MUST_ESCAPE = set('"\\') | set(chr(c) for c in range(0x20)) | {chr(0x2028), chr(
 SHORT = {'"': '\\"', '\\': '\\\\', '/': '\\/', '\b': '\\b', '\f': '\\f', '\n': '\\n', '\r': '\\r', '\t': '\\t'}
 
 
+RAW_SNIPPETS = ['\\\\\\/', '\\/\\\\', '\\\\/', '\\ud83d', '\\ude00', '\\ude00\\ud83d', '\\ud83d\\ude00\\ud83d', '\\uD800x',
+                '\\\\ud83d\\ude00', '\\"\\/', '\\u005c\\/']
+
+
 def uescape(ch):
     cp = ord(ch)
     if cp < 0x10000:
@@ -63,6 +67,10 @@ def json_string(draw):
     escaped = False
     for ch in chars:
         mode = draw(st.integers(0, 5))
+        if draw(st.integers(0, 24)) == 0:
+            # escape sequences next to one another, and surrogate escapes that do not form a pair
+            out.append(draw(st.sampled_from(RAW_SNIPPETS)))
+            escaped = True
         if ch in MUST_ESCAPE:
             if ch in SHORT and mode % 2 == 0:
                 out.append(SHORT[ch])
